@@ -159,8 +159,8 @@ func ExploreScenario(seed int64, p Profile, x *Explorer) {
 		x.Truth[name(Y)] = &gw.Content{IsModel: true, M: absval.KV{0: {K: 'p', N: x.fresh()}}}
 		x.Truth[name(X)] = &gw.Content{IsModel: true, M: absval.KV{0: {K: 'p', N: x.fresh()}}}
 		x.slowR = -1
-		if x.R.Intn(3) == 0 {
-			x.slowR, x.slowTyp = X, x.R.Pick("get", "access")
+		if x.R.Intn(2) == 0 {
+			x.slowR, x.slowTyp = X, x.R.Pick("get", "access", "access")
 		}
 		request := func(c *gw.Client, k int) {
 			switch k {
@@ -235,13 +235,17 @@ func ExploreScenario(seed int64, p Profile, x *Explorer) {
 		}
 		// phase 4: invalidation, possibly with a request arriving before the re-check is answered, possibly twice
 		if x.R.Intn(8) != 0 {
-			invalidate(x.R.Intn(7))
+			if x.R.Intn(3) == 0 {
+				invalidate(0)
+			} else {
+				invalidate(x.R.Intn(7))
+			}
 		}
 		if x.R.Intn(3) == 0 {
 			x.internalSteps(x.R.Intn(4))
 			request(A, x.R.Intn(6))
 		}
-		if x.R.Intn(3) == 0 {
+		if x.R.Intn(2) == 0 {
 			x.internalSteps(x.R.Intn(4))
 			x.changeEvent(X)
 			x.customEvent(X)
